@@ -32,7 +32,7 @@ neighbor 127.0.0.2 {
   local-as 65001;
   peer-as 65002;
   hold-time %(hold)d;
-  capability { route-refresh enable; }
+  %(ribopts)s
   api { processes [ api ]; neighbor-changes; }
   family { ipv4 unicast; ipv6 unicast; }
   static {
@@ -53,10 +53,11 @@ neighbor 127.0.0.3 {
 """
 
 
-def config(sel, hold=30, extra=''):
+def config(sel, hold=30, extra='', norib=False):
     a, b, c = sel
     lines = [x for x in (A[a], B[b], C6[c]) if x]
-    return CFG % dict(hold=hold, routes='\n'.join('    ' + l for l in lines), extra=extra)
+    ribopts = 'adj-rib-out false;' if norib else 'capability { route-refresh enable; }'
+    return CFG % dict(hold=hold, routes='\n'.join('    ' + l for l in lines), extra=extra, ribopts=ribopts)
 
 
 def table_of(sel):
@@ -123,7 +124,8 @@ def run_success(args):
     old, new, session, api_state, change = args
     viols = []
     hold_new = 30 if change != 'hold' else 60
-    with World(config(old)) as wd:
+    norib = change == 'norib'
+    with World(config(old, norib=norib)) as wd:
         env = Env(wd, hold=30, script=[], config_name='active')
         env.step = 0
         up = False
@@ -152,7 +154,7 @@ def run_success(args):
         if change == 'remove':
             wd.set_config(CFG.split('neighbor 127.0.0.2')[0] + SECOND)
         else:
-            wd.set_config(config(new, hold=hold_new, extra=extra))
+            wd.set_config(config(new, hold=hold_new, extra=extra, norib=norib))
         wd.signal('RELOAD')
         wd.settle()
         wd.advance(0.6)
@@ -310,6 +312,24 @@ def run_failure(args):
                 extra = [k for k in t if k not in want and k != k8]
                 if extra:
                     viols.append((f'failed-reload-leaked-routes:{fault}', f'after a failed reload ({fault}, line {line_idx}) the peer received routes of the refused file: {extra}'))
+        # a good file after the refused one must be applied like any other reload
+        if session == 'up':
+            wd.cfg._text = True
+            wd.set_config(config(new))
+            wd.signal('RELOAD')
+            wd.settle()
+            wd.advance(1.0)
+            if str(wd.cfg.error):
+                viols.append((f'good-reload-refused-after-failed-one:{fault}', f'after a failed reload ({fault}) the valid new file was refused: {str(wd.cfg.error).strip()[:160]}'))
+            else:
+                sm = edev.summarize(wd, env)
+                cur = env.current()
+                if cur is not None:
+                    t, bad = peer_table(sm, cur.index)
+                    want = dict(table_of(new))
+                    want[w.nlri_key(w.nlri_ip(1, 1, '10.8.0.0', 24))] = ('2.2.2.2', None)
+                    if t != want:
+                        viols.append((f'reload-after-failed-one-wrong-table:{fault}', f'after a failed reload ({fault}) then the valid file, the peer holds {sorted(t)} expected {sorted(want)}'))
     seen = set()
     outv = []
     for sig, what in viols:
@@ -333,6 +353,10 @@ def plan(tier):
                     succ.append((old, new, sess, api_state, 'none'))
             for ch in ('hold', 'add', 'remove'):
                 succ.append((old, new, 'up', 'none', ch))
+        # without adj-rib-out (no route-refresh, cache off): the difference must still be applied
+        for old, new in itertools.product(SELS[::3], SELS[::3]):
+            succ.append((old, new, 'up', 'none', 'norib'))
+            succ.append((old, new, 'up', 'D', 'norib'))
         bases = [(SELS[1], SELS[10]), (SELS[0], SELS[15])]
     else:
         for old in SELS:
@@ -340,8 +364,9 @@ def plan(tier):
                 for sess in ('up', 'down'):
                     for api_state in ('none', 'D', 'D-'):
                         succ.append((old, new, sess, api_state, 'none'))
-                for ch in ('hold', 'add', 'remove'):
+                for ch in ('hold', 'add', 'remove', 'norib'):
                     succ.append((old, new, 'up', 'none', ch))
+                succ.append((old, new, 'up', 'D', 'norib'))
         bases = [(SELS[1], SELS[10]), (SELS[0], SELS[15]), (SELS[15], SELS[1])]
     for old, new in bases:
         nlines = len([l for l in config(new).split('\n') if l.strip()])
